@@ -353,7 +353,7 @@ def send_story_view(msg_root):
                 body.append({"kind": "other", "text": [], "mixed": False, "id": NONE})
     st = {"id": _s(project._txt(base, "storyID")), "slug": _s(project._txt(base, "storySlug")),
           "sd": NIL, "tt": NIL, "mt": NIL, "st": NIL, "en": NIL, "body": body, "items": items}
-    return {"edstart": NIL, "exact": False, "stories": [st]}
+    return {"edstart": NIL, "exact": False, "numeric": True, "stories": [st]}
 
 
 def observe_story(st):
